@@ -471,6 +471,10 @@ func H_ModifyBid() {
 		nd.Assert("C04.modify-tops-the-reservation-up-to-what-settlement-accounts-for", nd.And(
 			post.get(sg, denomPay).EQ(pre.get(sg, denomPay).Sub(delta)),
 			post.get(st.payingAddr(), denomPay).EQ(pre.get(st.payingAddr(), denomPay).Add(delta))))
+		// C02: the only amount that leaves the bidder's account is the increase of the reservation of their own bid
+		nd.Assert("C02.modify-takes-exactly-the-reservation-increase", nd.And(
+			post.get(sg, denomPay).EQ(pre.get(sg, denomPay).Sub(delta)),
+			post.get(st.payingAddr(), denomPay).EQ(pre.get(st.payingAddr(), denomPay).Add(delta))))
 		nd.Assert("C11.modify-charges-exact-difference", nd.And(delta.GE(nd.ZOf(0)),
 			post.get(sg, denomPay).EQ(pre.get(sg, denomPay).Sub(delta)),
 			post.get(st.payingAddr(), denomPay).EQ(pre.get(st.payingAddr(), denomPay).Add(delta))))
